@@ -28,7 +28,7 @@ import units     # noqa: E402
 import props as propdefs  # noqa: E402
 
 REPO = os.environ.get('VERIF_REPO', '/repo')
-CACHE = os.path.join(ROOT, '.cache')
+CACHE = os.environ.get('VERIF_CACHE') or os.path.join(ROOT, '.cache')
 SAFETY_KINDS = {'overflow', 'unreachable', 'index', 'assert-src', 'std-requires'}
 
 
